@@ -103,7 +103,7 @@ Definition index_of_method (name : bytes) (ms : list method) : option (N * metho
      end) ms 0.
 
 Definition analyze (ev : N) (caller_eff callee_eff caller_nat callee_nat : traitdef) : ares :=
-  if Nat.ltb 64 (length (td_methods caller_nat)) then APanic else      (* "Too many method arguments" (sic) *)
+  (* since fix F5 there is no limit on the number of methods (the 64-argument limit is per method, below) *)
   (fix go (ms : list method) (acc : list cmethod) : ares :=
      match ms with
      | [] => AOk (rev acc)
